@@ -277,6 +277,19 @@ func ruleG25(r *Run) {
 				if d, ok := defs[o]; ok && d != nil {
 					return element(d, depth+1)
 				}
+				// the value variable of a range over a server list
+				isRangeVal := false
+				ast.Inspect(fd.Body, func(m ast.Node) bool {
+					if rs, isR := m.(*ast.RangeStmt); isR && rs.Value != nil {
+						if id, isID := rs.Value.(*ast.Ident); isID && info.ObjectOf(id) == o && isURLList(info.TypeOf(rs.X)) {
+							isRangeVal = true
+						}
+					}
+					return true
+				})
+				if isRangeVal {
+					return true
+				}
 				// a variable assigned more than once: every assignment must be an element
 				okAll, any := true, false
 				ast.Inspect(fd.Body, func(m ast.Node) bool {
